@@ -105,13 +105,18 @@ func pbUnknown(i int, defined ...int) []byte {
 	if i == 1 {
 		verifAssume(num >= 1)
 		verifAssume(num <= 536870911)
-		for _, d := range defined {
-			verifAssume(num != d)
-		}
 	} else {
 		verifAssume(num >= 100)
 		verifAssume(num <= 1000)
 	}
+	for _, d := range defined {
+		verifAssume(num != d)
+	}
+	return pbUnknownNum(i, num)
+}
+
+// pbUnknownNum: one unknown field with the given (symbolic or concrete) number, symbolic wire type and payload
+func pbUnknownNum(i int, num int) []byte {
 	wt := nondetIntN("uwt", i)
 	verifAssume(wt == 0 || wt == 1 || wt == 2 || wt == 5)
 	if i != 1 && verifTier() == 0 {
@@ -210,3 +215,60 @@ func pbC10Prelude() {
 	_, _, _ = d.DecodeTag()
 	_, _ = d.DecodeString()
 }
+
+// C08: totality on arbitrary bytes, bounded allocation, and agreement with the reference runtime whenever both accept
+func pbC08(m pbMsg, nmax int) {
+	p := nondetBytes("p", nmax)
+	verifAllocLimit(8*len(p) + 64)
+	err := m.Unmarshal(p)
+	if err == nil {
+		// differential clause, decided by the real reference runtime on the witness of every accepting path
+		verifAssertAgreesIfRefAccepts(m, p, "native: both the generated Unmarshal and the reference runtime accept the input, but decode different messages")
+	}
+	verifReach("end")
+}
+
+// corrupted length prefixes: the key of a field (numbers 1..6 cover O/R/U of every kind message and the fields of the
+// composites) with the length-delimited wire type, then an arbitrary - possibly over-long or overflowing - varint
+// as its declared length, then a short arbitrary tail
+func pbC08Len(m pbMsg) { pbC08LenIn(m, 1, 6) }
+
+func pbC08LenIn(m pbMsg, lo, hi int) {
+	num := nondetInt("field")
+	verifAssume(num >= lo)
+	verifAssume(num <= hi)
+	num = verifConcretize(num)
+	lp := nondetBytes("len", 10)
+	if verifTier() == 0 {
+		verifAssume(len(lp) <= 2 || len(lp) >= 9)
+	}
+	lp = lp[:verifConcretize(len(lp))]
+	// one varint: continuation bits on all bytes but the last (the tenth byte is arbitrary: overflowing and
+	// unterminated prefixes included)
+	for i := range lp {
+		if i < len(lp)-1 {
+			verifAssume(lp[i] >= 0x80)
+		} else if i < 9 {
+			verifAssume(lp[i] < 0x80)
+		}
+	}
+	tail := nondetBytes("tail", 1+2*verifTier())
+	tail = tail[:verifConcretize(len(tail))]
+	p := protowire.AppendTag(make([]byte, 0, 32), protowire.Number(num), protowire.BytesType)
+	p = append(p, lp...)
+	p = append(p, tail...)
+	verifAllocLimit(8*len(p) + 64)
+	err := m.Unmarshal(p)
+	if err == nil {
+		verifAssertAgreesIfRefAccepts(m, p, "native: both the generated Unmarshal and the reference runtime accept the input, but decode different messages")
+	}
+	verifReach("end")
+}
+
+func c08N(q, t int) int {
+	if verifTier() == 1 {
+		return t
+	}
+	return q
+}
+
